@@ -32,12 +32,11 @@ def plan(ctx):
         obs.append(Ob(id=f"dist-{k}_{m}_{hd}", harness="xor_l0.c", defs=dict(MODE=1, K=k, M=m, HD=hd), units=XU, unwind=35, timeout=600, mem_gb=4,
                       sample={"symbolic": f"{k}-bit non-zero data vector (all 2^{k}-1 codewords)", "table": [k, m, hd]}, targets=["init_xor_hd_code"]))
         allsets = list(esets(n, 0, hd - 1))
-        if ctx.tier == "quick" and len(allsets) > 100:
+        if ctx.tier == "quick" and len(allsets) > 60:
             singles = [s for s in allsets if len(s) <= 1]
             rest = [s for s in allsets if len(s) > 1]
-            if n > 11:
-                singles = [()] + rnd.sample([s for s in singles if s], 7)
-            pick = singles + rnd.sample(rest, min(len(rest), 24 if n <= 11 else 8))
+            singles = [()] + rnd.sample([s for s in singles if s], 7)
+            pick = singles + rnd.sample(rest, 8)
             exhaustive = False
         else:
             pick = allsets
@@ -62,6 +61,6 @@ def plan(ctx):
                   sample={"symbolic": "(k,m,hd) in [-1,33]^2 x [0,7] outside the 38 supported shapes"}, targets=["init_xor_hd_code"]))
     return {"obs": obs, "cov": {"exhaustive_erasure_sets": exhaustive},
             "assumptions": ["payload 4 bytes per fragment for the erasure-set sweep; lengths 1,16,20,33 on selected tables; longer payloads only through the xor_bufs_and_store kernel (n<=48)",
-                            "quick tier: tables with more than 100 erasure sets below hd use single erasures (all for k+m<=11, 7 sampled above) + 8..24 seeded random larger sets (the smallest tables stay exhaustive); thorough: every set with |E|<hd for all 38 tables",
+                            "quick tier: tables with more than 60 erasure sets below hd use 7 sampled single erasures + 8 seeded random larger sets (the two smallest tables stay exhaustive); thorough: every set with |E|<hd for all 38 tables",
                             "buffers 16-byte aligned (the front end guarantees this; unaligned inputs are C01 L2)"],
             "trusted": ["model/xor_eq.c: frozen copy of the 38 equation sets from the pinned revision (oracle)", "CBMC 6.11 C front end incl. emmintrin.h SSE2 intrinsics"]}
